@@ -17,7 +17,7 @@ ID = 'C20'
 
 BOUNDS = {
     'quick': dict(LQ=5, LF=3, N=1, PAIRS=40, STRAY=5),
-    'thorough': dict(LQ=6, LF=4, N=2, PAIRS=400, STRAY=14),
+    'thorough': dict(LQ=6, LF=3, N=2, PAIRS=150, STRAY=8),
 }
 
 EOF_RE = re.compile(r'end of input|end of file|\bEOF\b|unexpected end', re.I)
